@@ -13,7 +13,7 @@ RULE = ('Hypothesis draws a domain (2-4 attrs, sizes 1-4, joint <= 200 cells), 1
         'above the uniform start, or a plateau above the optimum after escalating iterations (500, 2000, 8000). '
         'Non-trivial = >=2 measurements with overlapping, non-nested projections or unequal noise scales, and the '
         'optimum improves on uniform by > 0.1%; distinct by sha1.')
-BUDGET = {'quick': 320, 'thorough': 6400}
+BUDGET = {'quick': 256, 'thorough': 6400}
 TIME = {'quick': 110, 'thorough': 1700}
 LEVELS = (500, 2000, 8000)
 
@@ -55,6 +55,7 @@ def run_case(case):
     domain = mbi.Domain(attrs, shape)
     A, b = inf.stacked(meas, attrs, shape)
     excess = []
+    thetas = []
     model = None
     for T in LEVELS:
         model = attempt(mbi, case, domain, meas, T)
@@ -69,6 +70,10 @@ def run_case(case):
         L = answers_loss(out, model, meas)
         if not out.ok: return out
         out.extra['theta_offset'] = inf.theta_offset(model)
+        snap = np.concatenate([np.where(np.isfinite(model.potentials[c].values), model.potentials[c].values, 0.0).flatten() for c in model.cliques])
+        if thetas and thetas[-1].shape == snap.shape and float(np.max(np.abs(thetas[-1] - snap))) < 0.05 * (float(np.ptp(snap)) + 1.0) and case['solver'] == 'MD':
+            out.extra['md_step_collapsed'] = True      # root-cause signature of F21: the potentials do not move between T/4 and T iterations
+        thetas.append(snap)
         if not np.isfinite(L):
             return out.fail('invalid:loss', 'loss recomputed from the model answers is %r' % L)
         if L < f_lo - 1e-7 * (f_unif + 1.0):
@@ -82,6 +87,8 @@ def run_case(case):
             e = 0.0 if L - f_hi <= 1e-6 * f_unif + 1e3 * floor else (L - f_hi) / max(denom, 1e-300)
         else:
             e = (L - f_hi) / denom
+        if L - f_hi <= 1e-4:
+            e = min(e, 0.0) if e < 0 else 0.0     # within 1e-4 (in units of noise-normalised squared error) of the optimum: attained
         excess.append(e)
         if e <= 1e-3:
             break
@@ -103,4 +110,14 @@ def _md_stalled(case, outc):
     return case.get('solver') == 'MD' and outc.extra.get('theta_offset', 0.0) >= 1e6
 
 
-KNOWN = {'md_step_doubling': _md_stalled}
+def _md_collapsed(case, outc):
+    if case.get('solver') != 'MD' or case.get('stepsize') is not None:
+        return False
+    if outc.extra.get('md_step_collapsed'):
+        return True
+    # the input region in which the initial step 1/total^2 is far below what the gradient needs: large units
+    tot = case.get('total')
+    return tot is not None and float(tot) >= 1e4 and all(m['noise'] >= 1e3 for m in case.get('meas', []))
+
+
+KNOWN = {'md_step_doubling': _md_stalled, 'md_step_collapsed': _md_collapsed}
